@@ -18,16 +18,23 @@
   `self._data_reservoirs[f][leaf]` (both `Option`).
 
   What holds for EVERY oracle behaviour, every draw, every `L` (no hypothesis at all):
-    `tree_len`, `tree_features_fixed`, `tree_reservoir_bounded_observed`, `tree_keys_nodup`,
-    `tree_keys_after_update` (the exact key set after an update), `tree_imputer_*`.
+    `tree_len`, `tree_features_fixed`, `tree_reservoir_bounded_observed`, `tree_keys_nodup`, `tree_imputer_*`;
+  and, for a stored feature that occurs once in the update's oracle list (`OccursOnce`; the instance is a dict):
+    `tree_keys_after_update` (the exact key list after an update), `tree_keys_are_leaves` (+ `_run`, `_lookup`).
   What needs named hypotheses:
    * `tree_newest_in_routed_leaf`: `1 ≤ L`, reals `≤ 1`, index draws in range (Python's `random()`/`randrange`),
      `RoutedLeafIsLeaf` (the routed id is among the ids the tree enumerates; monitored on the real trees), the
-     feature is stored and occurs once in the oracle list (`OccursOnce`; the instance is a dict).
-   * `tree_keys_are_leaves`: `CleanupFires`.  The Python code deletes stale reservoirs ONLY in the branch that creates
-     a reservoir for a new leaf id.  If a leaf disappears while the instance is routed to an id that already has a
-     reservoir, the stale key stays: `stale_key_remains_example` below.  `RoutedLeafIsLeaf` is NOT needed for this
-     theorem (if the new id is itself not a leaf it is filtered out again and nothing is inserted).
+     feature is stored and occurs once in the oracle list (`OccursOnce`).
+   * `tree_keys_are_leaves`: NO extra hypothesis any more.  The library now deletes stale reservoirs on EVERY update
+     (`fix:` commit a088161; `Tree.updateFeature` creates the routed leaf's reservoir if it is new, THEN filters all
+     reservoirs by the current leaves, then inserts), so the former hypothesis `CleanupFires` ("whenever some stored key
+     is not a current leaf, the routed leaf id is new") is no longer needed and has been removed.  `RoutedLeafIsLeaf`
+     is not needed either (if the routed id is itself not a leaf it is filtered out and nothing is inserted).
+  The OLD DEFECT is documented on `Tree.updateFeatureShipped` (clean-up only in the branch that creates a reservoir for
+  a new leaf id): `shipped_no_cleanup_when_routed_known` (keys unchanged whenever the routed id already has a
+  reservoir, whatever the current leaves are) and the concrete `shipped_stale_key_remains_example` (a leaf id
+  disappears while the instance is routed to an id that already has a reservoir: the stale key REMAINS under the
+  shipped behaviour and is removed by the same step of the fixed `Tree.updateFeature`).
 -/
 import IxaiVerif.Proofs.Tree
 import Mathlib.Algebra.Order.Field.Basic
@@ -41,24 +48,6 @@ open Ixai Ixai.Gen Ixai.Tree
 
 /-- the leaf the tree routes the observation to is one of the leaves the tree enumerates -/
 def RoutedLeafIsLeaf (leaf : ℕ) (allLeaves : List ℕ) : Prop := leaf ∈ allLeaves
-
-/-- whenever some existing reservoir key of the feature is not a current leaf, the routed leaf is a new id
-    (has no reservoir yet) — so that the clean-up branch of `_update_data_reservoirs` is executed -/
-def CleanupFires {K P : Type} (rs : Reservoirs K P) (leaf : ℕ) (allLeaves : List ℕ) : Prop :=
-  (∃ k ∈ rs.map Prod.fst, k ∉ allLeaves) → leaf ∉ rs.map Prod.fst
-
-/-- "either the routed leaf is new or all old keys are current leaves" -/
-theorem cleanupFires_iff {K P : Type} (rs : Reservoirs K P) (leaf : ℕ) (allLeaves : List ℕ) :
-    CleanupFires rs leaf allLeaves ↔ (leaf ∉ rs.map Prod.fst ∨ ∀ k ∈ rs.map Prod.fst, k ∈ allLeaves) := by
-  unfold CleanupFires
-  constructor
-  · intro h
-    by_cases hl : leaf ∈ rs.map Prod.fst
-    · right; intro k hk; by_contra hn; exact h ⟨k, hk, hn⟩ hl
-    · left; exact hl
-  · rintro (h | h) ⟨k, hk, hn⟩
-    · exact h
-    · exact absurd (h k hk) hn
 
 section Storage
 variable {K : Type} [Field K] [LinearOrder K] [IsStrictOrderedRing K] {P : Type}
@@ -128,47 +117,65 @@ theorem tree_newest_in_routed_leaf (L : ℕ) (hL : 1 ≤ L) (features : List ℕ
   unfold leafRes
   rw [hres]; exact hfind
 
-/-- the exact key set of feature `f` after one update from ANY state: unchanged if the routed leaf already had a
-    reservoir (no clean-up!), otherwise the old keys and the routed leaf restricted to the current leaves -/
+/-- the exact key list of feature `f` after one update from ANY state: the old keys, plus the routed leaf if it had no
+    reservoir yet, restricted to the current leaves (the clean-up runs on every update) -/
 theorem tree_keys_after_update (L : ℕ) (s : State K P) (x : P) (oracle : UpdateOracle) (rnd : Rnd K)
     (f leaf : ℕ) (allLeaves : List ℕ) (rs : Reservoirs K P)
     (hocc : OccursOnce oracle f leaf allLeaves) (hrs : featureRes s f = some rs) :
     ∃ rs', featureRes (update L s x oracle rnd).1 f = some rs' ∧
       rs'.map Prod.fst =
-        if leaf ∈ rs.map Prod.fst then rs.map Prod.fst
-        else (rs.map Prod.fst ++ [leaf]).filter (fun k => allLeaves.contains k) := by
+        ((if leaf ∈ rs.map Prod.fst then rs.map Prod.fst
+          else rs.map Prod.fst ++ [leaf]).filter (fun k => allLeaves.contains k)) := by
   obtain ⟨rnd1, _, _, hres⟩ := update_feature_entry L s x oracle rnd f leaf allLeaves rs hocc hrs
   exact ⟨_, hres, updateFeature_keys_eq L rs leaf allLeaves x rnd1⟩
 
-/-- reservoirs only for leaves of the current tree: after an update every reservoir key of `f` is one of that update's
-    `allLeaves`, provided the clean-up fires (the routed leaf is new, or all old keys are still leaves) -/
+/-- reservoirs only for leaves of the current tree: after an update from ANY state every reservoir key of `f` is one of
+    that update's `allLeaves` — unconditionally -/
 theorem tree_keys_are_leaves (L : ℕ) (s : State K P) (x : P) (oracle : UpdateOracle) (rnd : Rnd K)
     (f leaf : ℕ) (allLeaves : List ℕ) (rs : Reservoirs K P)
-    (hocc : OccursOnce oracle f leaf allLeaves) (hrs : featureRes s f = some rs)
-    (hclean : CleanupFires rs leaf allLeaves) :
+    (hocc : OccursOnce oracle f leaf allLeaves) (hrs : featureRes s f = some rs) :
     ∃ rs', featureRes (update L s x oracle rnd).1 f = some rs' ∧ ∀ k ∈ rs'.map Prod.fst, k ∈ allLeaves := by
   obtain ⟨rs', hres, hkeys⟩ := tree_keys_after_update L s x oracle rnd f leaf allLeaves rs hocc hrs
   refine ⟨rs', hres, ?_⟩
   intro k hk
-  rw [hkeys] at hk
-  rcases (cleanupFires_iff rs leaf allLeaves).1 hclean with hnew | hold
-  · rw [if_neg hnew, List.mem_filter] at hk
-    simpa using hk.2
-  · split at hk
-    · exact hold k hk
-    · rw [List.mem_filter] at hk
-      simpa using hk.2
+  rw [hkeys, List.mem_filter] at hk
+  simpa using hk.2
 
 /-- the same for the last update of a run, for a stored feature -/
 theorem tree_keys_are_leaves_run (L : ℕ) (features : List ℕ) (steps : List (P × UpdateOracle)) (x : P)
     (oracle : UpdateOracle) (rnd : Rnd K) (f leaf : ℕ) (allLeaves : List ℕ) (hf : f ∈ features)
-    (hocc : OccursOnce oracle f leaf allLeaves)
-    (hclean : ∀ rs, featureRes (run L features steps rnd).1 f = some rs → CleanupFires rs leaf allLeaves) :
+    (hocc : OccursOnce oracle f leaf allLeaves) :
     ∃ rs', featureRes (run L features (steps ++ [(x, oracle)]) rnd).1 f = some rs' ∧
       ∀ k ∈ rs'.map Prod.fst, k ∈ allLeaves := by
   obtain ⟨rs, hrs⟩ := tree_feature_has_entry L features steps rnd f hf
   rw [run_snoc]
-  exact tree_keys_are_leaves L _ x oracle _ f leaf allLeaves rs hocc hrs (hclean rs hrs)
+  exact tree_keys_are_leaves L _ x oracle _ f leaf allLeaves rs hocc hrs
+
+/-- through the lookup: a leaf id that has a reservoir after the update is one of that update's `allLeaves` -/
+theorem tree_keys_are_leaves_lookup (L : ℕ) (s : State K P) (x : P) (oracle : UpdateOracle) (rnd : Rnd K)
+    (f leaf : ℕ) (allLeaves : List ℕ) (hocc : OccursOnce oracle f leaf allLeaves)
+    (k : ℕ) (r : GeometricReservoirStorage K P Unit) (hr : leafRes (update L s x oracle rnd).1 f k = some r) :
+    k ∈ allLeaves := by
+  obtain ⟨rs', hrs', hfind⟩ := leafRes_some hr
+  have hstored : ∃ rs, featureRes s f = some rs := by
+    have hk : f ∈ (update L s x oracle rnd).1.reservoirs.map Prod.fst :=
+      List.mem_map.2 ⟨(f, rs'), featureRes_some_mem hrs', rfl⟩
+    rw [update_eq, foldl_ustep_keys] at hk
+    obtain ⟨e, he⟩ := find_isSome_of_mem_keys hk
+    exact ⟨e.2, by unfold featureRes; rw [he]; rfl⟩
+  obtain ⟨rs, hrs⟩ := hstored
+  obtain ⟨rs'', hres, hall⟩ := tree_keys_are_leaves L s x oracle rnd f leaf allLeaves rs hocc hrs
+  rw [hrs'] at hres
+  cases hres
+  exact hall k (List.mem_map.2 ⟨(k, r), findR_some_mem hfind, rfl⟩)
+
+/-- THE OLD DEFECT, on the shipped `_update_data_reservoirs` (`Tree.updateFeatureShipped`): when the routed leaf id
+    already has a reservoir the clean-up branch is not executed and the keys stay as they are, whatever the current
+    leaves are — in particular a key that is no longer a leaf remains -/
+theorem shipped_no_cleanup_when_routed_known (L : ℕ) (rs : Reservoirs K P) (leaf : ℕ) (allLeaves : List ℕ) (x : P)
+    (rnd : Rnd K) (hknown : leaf ∈ rs.map Prod.fst) :
+    (updateFeatureShipped L rs leaf allLeaves x rnd).1.map Prod.fst = rs.map Prod.fst :=
+  updateFeatureShipped_keys_known L rs leaf allLeaves x rnd hknown
 
 end Storage
 
@@ -232,7 +239,7 @@ def view (s : State ℚ ℕ) (f : ℕ) : Option (List (ℕ × List ℕ)) :=
 /-- before the split: leaf 1 holds both data points -/
 example : view (run 2 [0, 1] (exSteps.take 2) exRnd).1 0 = some [(1, [10, 11])] := by decide +kernel
 
-/-- the split: the routed leaf 2 is new, `CleanupFires` holds, the stale key 1 is removed -/
+/-- the split: the routed leaf 2 is new, the stale key 1 is removed -/
 example : view (run 2 [0, 1] (exSteps.take 3) exRnd).1 0 = some [(2, [12])] := by decide +kernel
 
 example : view (run 2 [0, 1] exSteps exRnd).1 0 = some [(2, [12]), (3, [13])] := by decide +kernel
@@ -242,18 +249,9 @@ example : view (run 2 [0, 1] exSteps exRnd).1 1 = some [(1, [13, 11])] := by dec
 
 example : len (run 2 [0, 1] exSteps exRnd).1 = 4 := by decide +kernel
 
-/-- the hypotheses of `tree_newest_in_routed_leaf` and `tree_keys_are_leaves` hold at the split -/
+/-- the hypotheses of `tree_newest_in_routed_leaf` (and of `tree_keys_are_leaves`: `OccursOnce`) hold at the split -/
 example : OccursOnce [(0, (2, [2, 3])), (1, (1, [1]))] 0 2 [2, 3] ∧ RoutedLeafIsLeaf 2 [2, 3] := by
   refine ⟨⟨by decide, by decide⟩, by unfold RoutedLeafIsLeaf; decide⟩
-
-example : ∀ rs, featureRes (run 2 [0, 1] (exSteps.take 2) exRnd).1 0 = some rs → CleanupFires rs 2 [2, 3] := by
-  intro rs hrs
-  have h : (featureRes (run 2 [0, 1] (exSteps.take 2) exRnd).1 0).map (fun rs => rs.map Prod.fst) = some [1] := by
-    decide +kernel
-  rw [hrs] at h
-  simp only [Option.map_some, Option.some.injEq] at h
-  intro _
-  rw [h]; decide
 
 /-- all hypotheses of `tree_newest_in_routed_leaf` are jointly satisfiable: the theorem applied to the split -/
 example : ∃ r, leafRes (run 2 [0, 1] (exSteps.take 2 ++ [(12, [(0, (2, [2, 3])), (1, (1, [1]))])]) exRnd).1 0 2 = some r ∧
@@ -261,35 +259,61 @@ example : ∃ r, leafRes (run 2 [0, 1] (exSteps.take 2 ++ [(12, [(0, (2, [2, 3])
   tree_newest_in_routed_leaf 2 (by decide) [0, 1] (exSteps.take 2) 12 _ exRnd (fun _ => by simp [exRnd])
     (fun _ _ h => h) 0 2 [2, 3] (by decide) ⟨by decide, by decide⟩ (by unfold RoutedLeafIsLeaf; decide)
 
-/-- WHY `CleanupFires` IS NEEDED.  Feature 0's tree has leaves 1 and 2; both get a reservoir.  Then leaf 1 is split into
-    3 and 4 (id 1 disappears) while the instance is routed to leaf 2, which already has a reservoir: the branch that
-    deletes stale reservoirs is not executed and the key 1 REMAINS although it is not a leaf. -/
+/-- `tree_keys_are_leaves_run` applied to the split -/
+example : ∃ rs', featureRes (run 2 [0, 1] (exSteps.take 2 ++ [(12, [(0, (2, [2, 3])), (1, (1, [1]))])]) exRnd).1 0 = some rs' ∧
+    ∀ k ∈ rs'.map Prod.fst, k ∈ [2, 3] :=
+  tree_keys_are_leaves_run 2 [0, 1] (exSteps.take 2) 12 _ exRnd 0 2 [2, 3] (by decide) ⟨by decide, by decide⟩
+
+/-- THE SCENARIO OF THE OLD DEFECT.  Feature 0's tree has leaves 1 and 2; both get a reservoir.  Then leaf 1 is split
+    into 3 and 4 (id 1 disappears) while the instance is routed to leaf 2, which already has a reservoir. -/
 def exStale : List (ℕ × UpdateOracle) :=
   [(10, [(0, (1, [1, 2]))]),
    (11, [(0, (2, [1, 2]))]),
    (12, [(0, (2, [2, 3, 4]))])]
 
-theorem stale_key_remains_example :
-    view (run 2 [0] exStale exRnd).1 0 = some [(1, [10]), (2, [11, 12])] ∧ 1 ∉ [2, 3, 4] := by
-  constructor
+/-- with the fixed library the clean-up runs on that update too: the stale key 1 is removed -/
+example : view (run 2 [0] (exStale.take 2) exRnd).1 0 = some [(1, [10]), (2, [11])] := by decide +kernel
+
+example : view (run 2 [0] exStale exRnd).1 0 = some [(2, [11, 12])] := by decide +kernel
+
+/-- (leaf id, stored data points) of one feature's dict of reservoirs -/
+def viewRs (rs : Reservoirs ℚ ℕ) : List (ℕ × List ℕ) := rs.map (fun e => (e.1, e.2.storage_x))
+
+/-- feature 0's reservoirs after the first two updates of `exStale` (leaves 1 and 2 both have a reservoir) … -/
+def exStaleRs : Reservoirs ℚ ℕ × Rnd ℚ :=
+  let a := updateFeature 2 ([] : Reservoirs ℚ ℕ) 1 [1, 2] 10 exRnd
+  updateFeature 2 a.1 2 [1, 2] 11 a.2
+
+/-- … which is the state the run reaches -/
+example : view (run 2 [0] (exStale.take 2) exRnd).1 0 = some (viewRs exStaleRs.1) := by decide +kernel
+
+/-- the shipped behaviour (before `fix:` a088161) on the third update of `exStale`: the routed leaf 2 already has a
+    reservoir, the branch that deletes stale reservoirs is not executed, and the key 1 REMAINS although it is not a leaf
+    any more; the same step with the fixed `Tree.updateFeature` removes it -/
+theorem shipped_stale_key_remains_example :
+    viewRs exStaleRs.1 = [(1, [10]), (2, [11])] ∧
+    viewRs (updateFeatureShipped 2 exStaleRs.1 2 [2, 3, 4] 12 exStaleRs.2).1 = [(1, [10]), (2, [11, 12])] ∧
+    viewRs (updateFeature 2 exStaleRs.1 2 [2, 3, 4] 12 exStaleRs.2).1 = [(2, [11, 12])] ∧
+    1 ∉ [2, 3, 4] := by
+  refine ⟨?_, ?_, ?_, ?_⟩
+  · decide +kernel
+  · decide +kernel
   · decide +kernel
   · decide
 
-/-- `CleanupFires` indeed fails there: key 1 is not a leaf any more, but the routed leaf 2 is not new -/
-example : ∃ rs, featureRes (run 2 [0] (exStale.take 2) exRnd).1 0 = some rs ∧ ¬ CleanupFires rs 2 [2, 3, 4] := by
-  obtain ⟨rs, hrs⟩ := tree_feature_has_entry 2 [0] (exStale.take 2) exRnd 0 (by decide)
-  refine ⟨rs, hrs, ?_⟩
-  have h : (featureRes (run 2 [0] (exStale.take 2) exRnd).1 0).map (fun rs => rs.map Prod.fst) = some [1, 2] := by
-    decide +kernel
-  rw [hrs] at h
-  simp only [Option.map_some, Option.some.injEq] at h
-  unfold CleanupFires
-  rw [h]
-  decide
+/-- the hypothesis of `shipped_no_cleanup_when_routed_known` holds there: the routed leaf 2 is a known key -/
+example : 2 ∈ exStaleRs.1.map Prod.fst := by decide +kernel
 
-/-- … the stale reservoir is removed by the next update that creates a reservoir (routed to the new leaf 3) -/
-example : view (run 2 [0] (exStale ++ [(13, [(0, (3, [2, 3, 4]))])]) exRnd).1 0 = some [(2, [11, 12]), (3, [13])] := by
+/-- under the shipped behaviour the stale reservoir was removed only by the next update that creates a reservoir
+    (routed to the new leaf 3) -/
+example :
+    viewRs (updateFeatureShipped 2 (updateFeatureShipped 2 exStaleRs.1 2 [2, 3, 4] 12 exStaleRs.2).1 3 [2, 3, 4] 13
+      (updateFeatureShipped 2 exStaleRs.1 2 [2, 3, 4] 12 exStaleRs.2).2).1 = [(2, [11, 12]), (3, [13])] := by
   decide +kernel
+
+/-- a routed id that is itself not a leaf is filtered out again and nothing is inserted (no `RoutedLeafIsLeaf` needed
+    for `tree_keys_are_leaves`) -/
+example : viewRs (updateFeature 2 exStaleRs.1 7 [2, 3, 4] 12 exStaleRs.2).1 = [(2, [11])] := by decide +kernel
 
 /-- the imputer on the first example: feature 0 is imputed from leaf 3's reservoir, feature 1 is left alone;
     data points are instances `ℕ → ℕ` here -/
